@@ -17,25 +17,34 @@ open Dos Dos.Framing
 theorem c15_limit_is_1MiB : Gen.msgSizeLimit = 2 ^ 20 ∧ Gen.p2pHeaderSize = Framing.headerSize := by
   decide
 
-/-- regenerated fact: the statements of `readFrom` / `writeTo` that `Model/Framing.lean` transcribes
-(what each loop tests, the offset each `conn.Read` / `conn.Write` slices from and how it advances,
-locally allocated buffers, the size check — which returns — BEFORE the payload-sized `make`) are
-what the model assumes, and neither function touches a package-level variable (a reader's state is
-its own: the hypothesis of `interleaving_independent`). A change to any of them must be re-modelled. -/
+/-- regenerated fact: the COMPLETE bodies of `readFrom` / `writeTo` (every top-level statement
+printed in full by go/printer, nested blocks included, comments dropped) are the text that
+`Model/Framing.lean` transcribes, and neither function touches a package-level variable (a reader's
+state is its own: the hypothesis of `interleaving_independent`). Any edit of a statement of either
+function breaks this theorem and must be re-modelled. -/
 theorem c15_code_shape :
     Gen.P2PFraming.readFrom = [
+      "sig func(conn net.Conn) (buffer []byte, err error)",
       "0 header := make([]byte, headerSize)",
-      "2 for totalBytesRead < headerSize && err == nil { conn.Read(header[totalBytesRead:]) ; totalBytesRead += bytesRead }",
+      "1 bytesRead, totalBytesRead := 0, 0",
+      "2 for totalBytesRead < headerSize && err == nil { if bytesRead, err = conn.Read(header[totalBytesRead:]); err != nil { err = errors.Errorf(\"conn read header: %w\", err) return } totalBytesRead += bytesRead }",
       "3 size := binary.BigEndian.Uint32(header)",
-      "5 if size > msgSizeLimit || size <= 0 returns=true",
+      "4 header = nil",
+      "5 if size > msgSizeLimit || size <= 0 { err = errors.Errorf(\"SizeLimit %d size %d: %w\", msgSizeLimit, size, ErrMsgOverSize) return }",
       "6 buffer = make([]byte, size)",
-      "8 for totalContentBytesRead < int(size) && err == nil { conn.Read(buffer[totalContentBytesRead:]) ; totalContentBytesRead += contentBytesRead }"] ∧
+      "7 contentBytesRead, totalContentBytesRead := 0, 0",
+      "8 for totalContentBytesRead < int(size) && err == nil { if contentBytesRead, err = conn.Read(buffer[totalContentBytesRead:]); err != nil { err = errors.Errorf(\"conn read content: %w\", err) return } totalContentBytesRead += contentBytesRead }",
+      "9 return"] ∧
     Gen.P2PFraming.writeTo = [
+      "sig func(bytes []byte, conn net.Conn) (err error)",
       "0 prefix := make([]byte, headerSize)",
-      "3 if size > msgSizeLimit returns=true",
+      "1 bytesWrite, totalBytesWrtie := 0, 0",
+      "2 size := len(bytes)",
+      "3 if size > msgSizeLimit { err = errors.Errorf(\"SizeLimit %d size %d: %w\", msgSizeLimit, size, ErrMsgOverSize) return }",
       "4 binary.BigEndian.PutUint32(prefix, uint32(size))",
       "5 bytes = append(prefix, bytes...)",
-      "6 for totalBytesWrtie < len(bytes) && err == nil { conn.Write(bytes[totalBytesWrtie:]) ; totalBytesWrtie += bytesWrite }"] ∧
+      "6 for totalBytesWrtie < len(bytes) && err == nil { if bytesWrite, err = conn.Write(bytes[totalBytesWrtie:]); err != nil { err = errors.Errorf(\"conn write: %w\", err) return } totalBytesWrtie += bytesWrite }",
+      "7 return"] ∧
     Gen.P2PFraming.packageLevelVarsUsed = [] :=
   ⟨rfl, rfl, rfl⟩
 
